@@ -35,6 +35,11 @@ fn lex_(mut input: &str, mut start_of_line: bool) -> impl Iterator<Item = (Synta
 
     std::iter::from_fn(move || {
         if let Some(c) = input.chars().next() {
+            #[cfg(feature = "verif-hooks")]
+            {
+                crate::verif::step();
+                crate::verif::lex_transition(start_of_line, colon_count > 0, indent > 0, c);
+            }
             match c {
                 ':' if colon_count == 0 => {
                     colon_count += 1;
